@@ -22,7 +22,7 @@ func indexType(rt reflect.Type) (im map[string]reflect.StructField) {
 		im = map[string]reflect.StructField{}
 		for i--; 0 <= i; i-- {
 			f := rt.Field(i)
-			if 0 < len(f.PkgPath) {
+			if 0 < len(f.PkgPath) && !(f.Anonymous && f.Type.Kind() == reflect.Struct) {
 				continue
 			}
 			et := f.Type
